@@ -64,6 +64,15 @@ def sweep3(sid: int) -> dict[str, Any]:
             "results": results}
 
 
+def _repeated_dtc(b: bytes) -> bool:
+    """Input classification for the known finding S6: a ReadDTCInformation list response (59 <sub> <mask>
+    followed by 4-byte DTC+status records) that names the same 3-byte DTC in two records."""
+    if len(b) < 11 or b[0] != 0x59:
+        return False
+    recs = [b[i:i + 3] for i in range(3, len(b) - 3, 4)]
+    return len(set(recs)) < len(recs)
+
+
 def run(tier: str, seed: int) -> Report:
     quiet_gallia_logging()
     rep = Report("C02", tier, seed)
@@ -207,7 +216,7 @@ def run(tier: str, seed: int) -> Report:
                 rep.drift.append({"what": v[1], "via": m["via"], "bytes": bytes(t["b"]).hex(), "note": m["note"]})
         for label in v[2]:
             cls = "Raw" if t["v"] == "raw" else classes[t["kind"]].__name__
-            rep.violate(label, {"kind": cls},
+            rep.violate(label, {"kind": cls, "repeated_dtc": _repeated_dtc(bytes(t["b"]))},
                         {"via": "parse_dynamic" if m["via"] == "dyn" else f"{classes[m['via']].__name__}.from_pdu",
                          "bytes": bytes(t["b"]).hex(), "exposed": t["f"],
                          "reencoded": bytes(t["re"]["b"]).hex() if t["re"]["ok"] else None,
@@ -215,7 +224,7 @@ def run(tier: str, seed: int) -> Report:
     for t, v in all_recs_extra:
         for label in v[2]:
             cls = "Raw" if t["v"] == "raw" else classes[t["kind"]].__name__
-            rep.violate(label, {"kind": cls},
+            rep.violate(label, {"kind": cls, "repeated_dtc": _repeated_dtc(bytes(t["b"]))},
                         {"via": "parse_dynamic", "bytes": bytes(t["b"]).hex(), "exposed": t["f"],
                          "reencoded": bytes(t["re"]["b"]).hex() if t["re"]["ok"] else None,
                          "origin": "sweep-3", "note": "", "all": v[2]})
